@@ -169,6 +169,10 @@ def step (st : St) (ws0 : List String) : St × String × String × String :=
       ({ st with eng := some s2, txn := none, trig := st.trig || txTrigger t }, if okc then "ok" else "err", "-", "")
     | _, _ => (st, "notxn", "-", "")
   | ["qabort"] => ({ st with txn := none }, "ok", "-", "")
+  | ["compact"] =>
+    match st.eng with
+    | none => (st, "nodb", "-", "")
+    | some s => ({ st with eng := some (s.compact c), txn := none }, "ok", "-", "")
   | ["check"] =>
     match st.eng with
     | none => (st, "nodb", "-", "")
